@@ -895,6 +895,15 @@ func (x *Explorer) refine(st *State, cond ssa.Value, truth bool) bool {
 				}
 			}
 		}
+	case *ssa.Extract:
+		// the ok of a comma-ok map lookup: on a miss the value is the zero value
+		if lk, isLk := c.Tuple.(*ssa.Lookup); isLk && lk.CommaOk && c.Index == 1 && !truth {
+			ts := st.symOf(lk)
+			vs := Sym{d: ts.d, i: 1, v: ts.v}
+			if _, ok := st.facts[vs]; ok {
+				st.facts[vs] = zeroFact(lk.Type().(*types.Tuple).At(0).Type())
+			}
+		}
 	case *ssa.Call:
 		switch classifyExternal(c.Call.StaticCallee()) {
 		case xErrorsIs, xIsNotExist:
